@@ -526,6 +526,148 @@ fn check(c: &CCase, seed: u64) -> CaseOut {
     }
 }
 
+
+// ---------------------------------------------------------------------------------------------
+// (c) residue corruption at EVERY position: the validity check is a loop over the whole buffer, and loops get blocked,
+// unrolled and parallelised (seeded round 3). One word of one operand is set to exactly its modulus (the smallest invalid
+// value; for a coefficient-form plaintext: t) at every position of the buffer (every position up to 4096 words, the
+// boundary family beyond), and the entry point must refuse.
+// ---------------------------------------------------------------------------------------------
+
+#[derive(Serialize, Deserialize, Clone, Debug)]
+pub struct PCase {
+    pub spec: ParamSpec,
+    pub op: Op,
+    /// 0 = first ciphertext operand, 1 = second, 2 = plaintext operand, 3 = the size-3 operand of relinearize
+    pub target: u8,
+}
+
+fn position_family(len: usize, n: usize) -> Vec<usize> {
+    if len <= 4096 {
+        return (0..len).collect();
+    }
+    let mut v: Vec<usize> = vec![0, 1, 2, len - 2, len - 1];
+    let mut p = 4usize;
+    while p < len {
+        v.extend([p - 1, p, p + 1]);
+        p *= 2;
+    }
+    let mut c = n;
+    while c < len {
+        v.extend([c - 1, c, c + 1]);
+        c += n;
+    }
+    // blocks of 64 / 256 / 4096 words: the last block's first and last word
+    for b in [64usize, 256, 4096] {
+        let start = (len - 1) / b * b;
+        v.extend([start, start.saturating_sub(1)]);
+    }
+    v.retain(|&x| x < len);
+    v.sort_unstable();
+    v.dedup();
+    v
+}
+
+fn check_positions(c: &PCase, seed: u64) -> CaseOut {
+    let w = match world(&c.spec, seed) {
+        Ok(w) => w,
+        Err(e) => return CaseOut::skip(&format!("world: {e}")),
+    };
+    let sch = c.spec.scheme;
+    let n = c.spec.n;
+    let plain = match c.op {
+        Op::Encrypt | Op::EncryptSymmetric | Op::TransformPlainToNtt => w.plain_coef.clone(),
+        Op::ModSwitchPlainNext => {
+            if sch == Scheme::CKKS {
+                w.plain.clone()
+            } else {
+                match guard(|| w.kit.eval.transform_plain_to_ntt_new(&w.plain_coef, w.kit.ctx.first_parms_id())) {
+                    Ok(p) => p,
+                    Err(e) => return CaseOut::fail(format!("positions:{sch:?}:baseline-plain-transform"), "valid plaintext transforms", e),
+                }
+            }
+        }
+        _ => w.plain.clone(),
+    };
+    match run(&w, c.op, &w.a, &w.b, &w.a3, &plain, &w.relin, &w.galois, &w.ksk) {
+        None => return CaseOut::skip("entry point not applicable to this scheme"),
+        Some(Err(e)) => return CaseOut::fail(format!("positions:{sch:?}:{:?}:baseline-refused:{}", c.op, panic_class(&e)), "valid operands are accepted", e),
+        Some(Ok(())) => {}
+    }
+    // the operand to corrupt and the invalid value per position
+    let (len, invalid): (usize, Box<dyn Fn(usize) -> u64>) = match c.target {
+        2 => {
+            let len = plain.data().len();
+            if plain.is_ntt_form() {
+                let Some(cd) = w.kit.ctx.get_context_data(plain.parms_id()) else { return CaseOut::skip("plaintext level unknown") };
+                let mods: Vec<u64> = cd.parms().coeff_modulus().iter().map(|m| m.value()).collect();
+                (len, Box::new(move |p| mods[(p / n) % mods.len()]))
+            } else {
+                let t = c.spec.t;
+                (len, Box::new(move |_| t))
+            }
+        }
+        t => {
+            let ct = if t == 3 { &w.a3 } else if t == 1 { &w.b } else { &w.a };
+            let Some(cd) = w.kit.ctx.get_context_data(ct.parms_id()) else { return CaseOut::skip("ciphertext level unknown") };
+            let mods: Vec<u64> = cd.parms().coeff_modulus().iter().map(|m| m.value()).collect();
+            (ct.data().len(), Box::new(move |p| mods[(p / n) % mods.len()]))
+        }
+    };
+    let mut steps = 0u64;
+    for pos in position_family(len, n) {
+        let (mut a, mut b, mut a3, mut p) = (w.a.clone(), w.b.clone(), w.a3.clone(), plain.clone());
+        let bad = invalid(pos);
+        match c.target {
+            0 => a.data_mut()[pos] = bad,
+            1 => b.data_mut()[pos] = bad,
+            2 => p.data_mut()[pos] = bad,
+            _ => a3.data_mut()[pos] = bad,
+        }
+        let res = match run(&w, c.op, &a, &b, &a3, &p, &w.relin, &w.galois, &w.ksk) {
+            Some(r) => r,
+            None => return CaseOut::skip("entry point not applicable to this scheme"),
+        };
+        steps += 1;
+        let key = format!("positions:{sch:?}:{:?}:target{}", c.op, c.target);
+        let what = format!("word {pos} of {len} (component {}, coefficient {}) set to its modulus {bad}", (pos / n), pos % n);
+        match res {
+            Err(e) if is_crash(&e) => return CaseOut::fail(format!("{key}:crash:{}", panic_class(&e)), format!("{what}: an explicit refusal"), e),
+            Err(_) => {}
+            Ok(()) => return CaseOut::fail(format!("{key}:accepted"), format!("{what}: the operand is refused"), "the operation computed a result"),
+        }
+    }
+    CaseOut::pass(true, h64(&(c.op, c.target, len)), steps)
+}
+
+fn position_cases(thorough: bool) -> Vec<PCase> {
+    let mut specs = vec![
+        ParamSpec::new(Scheme::BFV, 8, chain(8, &[40; 10]), 17),
+        ParamSpec::new(Scheme::BGV, 64, chain(64, &[40, 40, 40, 40]), 257),
+        ParamSpec::new(Scheme::CKKS, 256, chain(256, &[40, 40, 50]), 0),
+        ParamSpec::new(Scheme::BFV, 1024, chain(1024, &[50, 50, 60]), 65537),
+    ];
+    if thorough {
+        specs.push(ParamSpec::new(Scheme::CKKS, 8, chain(8, &[40; 18]), 0));
+        specs.push(ParamSpec::new(Scheme::BGV, 4096, chain(4096, &[50, 50, 50, 60]), 65537));
+        specs.push(ParamSpec::new(Scheme::BFV, 8192, chain(8192, &[55, 55, 60]), 65537));
+    }
+    let mut v = vec![];
+    for spec in specs {
+        for op in [Op::Negate, Op::Add, Op::Multiply, Op::ModSwitchNext, Op::Decrypt, Op::RelinearizeSize2, Op::AddManySingle, Op::Transform, Op::Rotate, Op::AddPlain, Op::KeySwitch] {
+            v.push(PCase { spec: spec.clone(), op, target: 0 });
+        }
+        for op in [Op::Add, Op::Multiply, Op::AddMany] {
+            v.push(PCase { spec: spec.clone(), op, target: 1 });
+        }
+        for op in [Op::AddPlain, Op::MultiplyPlain, Op::Encrypt, Op::TransformPlainToNtt, Op::ModSwitchPlainNext] {
+            v.push(PCase { spec: spec.clone(), op, target: 2 });
+        }
+        v.push(PCase { spec, op: Op::Relinearize, target: 3 });
+    }
+    v
+}
+
 pub fn sections(cfg: &RunCfg) -> Vec<Box<dyn AnySection>> {
     let seed = cfg.seed;
     let mut v: Vec<Box<dyn AnySection>> = param_sets(cfg)
@@ -576,5 +718,14 @@ pub fn sections(cfg: &RunCfg) -> Vec<Box<dyn AnySection>> {
         cases.into_iter(),
         move |c: &CCase| check(c, seed),
     ));
+    v.push(
+        E1::new(
+            "positions",
+            "one residue set to exactly its modulus (coefficient-form plaintext: t) at EVERY word position of the operand (every position up to 4096 words; beyond: 0,1,2, 2^j-1..2^j+1, every component boundary -1..+1, first / last word of the last 64- / 256- / 4096-word block, last two) x 20 (entry point, operand) pairs x {BFV N=8 with 10 primes, BGV N=64, CKKS N=256, BFV N=1024} (thorough: + CKKS N=8 with 18 primes, BGV N=4096, BFV N=8192): every call must refuse",
+            position_cases(cfg.thorough()).into_iter(),
+            move |c: &PCase| check_positions(c, seed),
+        )
+        .deadline(std::time::Duration::from_secs(300)),
+    );
     v
 }
